@@ -244,7 +244,7 @@ func (rt *runtime) cmplEvaluateNodeCallExpression(node *nodeCallExpression, with
 	if !vl.IsFunction() {
 		if name == "" {
 			// FIXME Maybe typeof?
-			panic(rt.panicTypeError("%v is not a function", vl, atv))
+			panic(rt.panicTypeError("%s is not a function", describeCallee(vl), atv))
 		}
 		panic(rt.panicTypeError("%q is not a function", name, atv))
 	}
@@ -310,7 +310,7 @@ func (rt *runtime) cmplEvaluateNodeNewExpression(node *nodeNewExpression) Value 
 	if !vl.IsFunction() {
 		if name == "" {
 			// FIXME Maybe typeof?
-			panic(rt.panicTypeError("%v is not a function", vl, atv))
+			panic(rt.panicTypeError("%s is not a function", describeCallee(vl), atv))
 		}
 		panic(rt.panicTypeError("'%s' is not a function", name, atv))
 	}
@@ -463,4 +463,14 @@ func (rt *runtime) cmplEvaluateNodeVariableExpression(node *nodeVariableExpressi
 		rt.putValue(left, rightValue)
 	}
 	return stringValue(node.name)
+}
+
+// describeCallee names a value that was called but is not a function without
+// converting it: 11.2.2 and 11.2.3 throw the TypeError at once, the toString of
+// an object must not run for the message.
+func describeCallee(value Value) string {
+	if obj := value.object(); obj != nil {
+		return "[object " + obj.class + "]"
+	}
+	return value.string()
 }
